@@ -367,6 +367,103 @@ func c08(c *core.Check) {
 		r4.Cond(n >= 2, "both validation paths found", p.Pos(ppd.Pos()), fmt.Sprint(n), fmt.Sprintf("%d call sites found", n))
 	}
 
+	// ---- R6 background layers stay aligned
+	r6 := c.Rule("R6", "expandBackground parses the layers in reverse order into one list per longhand and puts every one of these lists back in source order: the lists filled in the layer loop are exactly the lists permuted afterwards (a list left reversed pairs each layer's value with another layer)", 7)
+	if eb := p.Fn("css/validation", "expandBackground"); eb == nil {
+		r6.Anchor("css/validation.expandBackground")
+	} else {
+		name := func(v ssa.Value) string {
+			if ms, ok := v.(*ssa.MakeSlice); ok {
+				if s := p.StmtTextAt(eb, ms.Pos()); s != "" {
+					if i := strings.Index(s, " :="); i > 0 {
+						return s[:i]
+					}
+					return s
+				}
+			}
+			return v.Name()
+		}
+		loops := core.Loops(eb)
+		filled := map[ssa.Value]bool{}
+		permuted := map[ssa.Value]bool{}
+		for _, l := range loops {
+			hasParse := false
+			stores := map[ssa.Value]int{}
+			for b := range l.Blocks {
+				for _, in := range b.Instrs {
+					if call, ok := in.(*ssa.Call); ok {
+						if cal := call.Call.StaticCallee(); cal != nil && strings.HasPrefix(cal.Name(), "expandBackground$") {
+							hasParse = true
+						}
+						if call.Call.StaticCallee() == nil && !call.Call.IsInvoke() {
+							if _, isB := call.Call.Value.(*ssa.Builtin); !isB {
+								hasParse = true // parseLayer is a local closure
+							}
+						}
+					}
+					if st, ok := in.(*ssa.Store); ok {
+						if ia, ok := st.Addr.(*ssa.IndexAddr); ok {
+							if _, isMS := ia.X.(*ssa.MakeSlice); isMS {
+								stores[ia.X]++
+							}
+						}
+					}
+				}
+			}
+			for v, n := range stores {
+				if hasParse {
+					filled[v] = true
+				} else if n >= 2 {
+					permuted[v] = true
+				}
+			}
+		}
+		// slices.Reverse(list)
+		core.Instrs(eb, func(in ssa.Instruction) {
+			if call, ok := in.(*ssa.Call); ok {
+				if cal := call.Call.StaticCallee(); cal != nil && strings.HasPrefix(cal.Name(), "Reverse") && len(call.Call.Args) == 1 {
+					a := call.Call.Args[0]
+					for {
+						if ct, ok := a.(*ssa.ChangeType); ok {
+							a = ct.X
+							continue
+						}
+						break
+					}
+					permuted[a] = true
+				}
+			}
+		})
+		if len(filled) < 7 {
+			r6.Unknown("expandBackground | lists filled per layer", p.Pos(eb.Pos()), fmt.Sprintf("%d lists found, 7 expected", len(filled)))
+		}
+		for v := range filled {
+			r6.Cond(permuted[v], "expandBackground | "+name(v)+" is put back in source order", p.Pos(v.Pos()), "filled in the reversed layer loop and permuted back", "filled in the reversed layer loop but never permuted back: its entries stay in reverse layer order while the other lists are in source order")
+		}
+	}
+
+	// ---- R7 custom properties are inherited by copy
+	r7 := c.Rule("R7", "a style's table of custom properties is its own: the `variables` field of a ComputedStyle is only ever assigned a freshly made map (the parent's entries are copied into it), never another style's table, so a custom property declared on an element cannot appear on its parent or siblings", 1)
+	nVar := 0
+	for _, fn := range p.FuncsOfPkg("html/tree") {
+		core.Instrs(fn, func(in ssa.Instruction) {
+			st, ok := in.(*ssa.Store)
+			if !ok {
+				return
+			}
+			fa, ok := st.Addr.(*ssa.FieldAddr)
+			if !ok || core.FieldName(fa) != "variables" {
+				return
+			}
+			nVar++
+			_, fresh := st.Val.(*ssa.MakeMap)
+			r7.Cond(fresh, core.FuncName(fn)+" | "+p.StmtTextAt(fn, st.Pos()), p.Pos(st.Pos()), "assigned a freshly made map", "assigned a map that is not made here: the table is shared with another style")
+		})
+	}
+	if nVar == 0 {
+		r7.Unknown("html/tree | variables field", "-", "no assignment of a `variables` field found")
+	}
+
 	// ---- R5 var() cycles
 	r5 := c.Rule("R5", "tree.resolveVar follows custom properties under a visited set: a membership test on the variable name excludes the lookup of its value, and the name is inserted before the looked-up tokens are resolved recursively", 1)
 	rv := p.Fn("html/tree", "resolveVar")
